@@ -113,6 +113,29 @@ def check_case(ctx, g, model=None, thr=None, exact_ok=True, limit=10.0):
                       suite="corr.reach")
 
 
+def fan_case(ctx, g):
+    """closed form: a child reports its q exactly, a group / the root the max (Player 1) or min (Player 2)"""
+    f = g["_fan"]
+    n = len(g["players"])
+    want = f["expected_reach"]
+    inp = {"meta": g.get("_meta"), "n": n, "family": "fan", "root": f["kind"]}
+    ctx.case(inp, True)
+    for prune in (False, True):
+        r = impl.reach_only(g, prune=prune, limit=300.0)
+        if r["outcome"] == "Timeout":
+            ctx.count("timeout_skipped")
+            continue
+        if r["outcome"] != "ok":
+            if not (prune and r["outcome"] == "ValueError:nosolution" and want[0] == 0):
+                ctx.violation("reachability-fails", inp, {"outcome": r["outcome"], "msg": r.get("msg"), "prune": prune})
+            continue
+        bad = [s for s in range(n) if r["probs"][s] != want[s]]
+        if bad:
+            ctx.violation("within-tolerance", inp, {"prune": prune, "first_wrong_states": bad[:5],
+                                                    "reported": [r["probs"][s] for s in bad[:5]], "expected": [want[s] for s in bad[:5]]})
+            return
+
+
 from boards import board_games  # noqa: E402
 
 
@@ -139,8 +162,13 @@ def run(ctx, model=None):
     # deep corridors numbered towards the goal (one more state settles per sweep) and very slowly
     # mixing cycles: thousands of sweeps
     from props.c06 import chain_game
-    for n in ([1200] if ctx.quick() else [1200, 2500, 5000]):
-        check_case(ctx, chain_game(n, rng), model if n <= 1200 else None, exact_ok=False, limit=900.0)
+    for n in ([2100] if ctx.quick() else [1200, 2100, 2500, 5000]):
+        check_case(ctx, chain_game(n, rng), model if n <= 2100 else None, exact_ok=False, limit=900.0)
+    with impl.forced_debug(False):
+        check_case(ctx, gen.slow_corridor(2100, rng), None, exact_ok=False, limit=300.0)
+    # wide games beyond every "round" size (4096, 10^4, 2^16 states); values known in closed form
+    for n in ([10500, 66000] if ctx.quick() else [4100, 10001, 10500, 65537, 66000, 140000]):
+        fan_case(ctx, gen.fan_game(n, rng))
     for gam in ([Fr(999, 1000)] if ctx.quick() else [Fr(999, 1000), Fr(9999, 10000)]):
         r_ = (1 - gam) / 2
         g = gen.finish([0, 0, 0], [PR, PR, PR], [[(gam, 0), (r_, 1), (r_, 2)], [(Fr(1), 1)], [(Fr(1), 2)]], [1],
